@@ -245,6 +245,14 @@ def runRaw (_prop : String) (f : List String) (obsS : String) : Verdict :=
     ⟨obsS == expected, obsS, expected, v, ["metric-backend"], false⟩
   | _ => bad
 
+/-- handler scenarios (panicking, re-entrant, concurrent handler): two invocations each -/
+def runHdl (_prop : String) (_f : List String) (obsS : String) : Verdict :=
+  let expected := "a2,b2,c2"
+  let v : Option (String × String) :=
+    if obsS == expected then none
+    else some ("C03", "a failed quiet send did not reach the error handler exactly once (a: after an earlier handler invocation panicked, b: from inside the handler, c: while another thread's handler invocation was running): " ++ obsS)
+  ⟨obsS == expected, obsS, expected, v, ["handler-scenarios"], false⟩
+
 /-- `impl Display for MetricValue` against `Val.render` -/
 def runVal (_prop : String) (f : List String) (obsS : String) : Verdict :=
   match f with
